@@ -812,7 +812,7 @@ impl Check for C17 {
 		CheckInfo {
 			id: "C17",
 			level: "exploration",
-			rule: "1/16 of the cases are scheduled (c17_sched.rs): a gameplay task adds a modulator and then a sub-track whose effect owns a parameter linked to it (or a sound whose volume is linked to it) while an audio task runs callbacks under seeded random schedules - in every chunk in which the linked resource runs, the modulator exists and the parameter is the mapping of its value; the others: each case = seeded history over {add LFO (4 waveforms, frequency 0 .. 3 cycles per internal chunk, amplitude / offset / starting phase), add tweener, add probe modulator, add a follower (an LFO of amplitude 0 whose offset is linked through a mapping to an older modulator: a modulator -> modulator chain), add a reader (sub-track whose probe effect owns parameters linked to modulators through mappings with normal / inverted / partial input ranges and every easing; 30% of the readers start with fixed parameters and are linked afterwards by Parameter::set with a tween - once it is over they follow like any other link), tweener set (immediate / delayed, any duration and easing; targets and initial values from a small pool so that sets to the current value and to the pending target occur), LFO frequency / amplitude / offset / phase / waveform commands, drop a modulator, callback of arbitrary size} at seeded internal buffer size and sample rate; non-trivial = at least one (modulator value, linked parameter) pair compared; distinct = hash of per-callback (live modulators, readers, chunks)",
+			rule: "1/16 of the cases are scheduled (c17_sched.rs): a gameplay task adds a modulator and then a sub-track whose effect owns a parameter linked to it (or a sound whose volume is linked to it) while an audio task runs callbacks under seeded random schedules - in every chunk in which the linked resource runs, the modulator exists and the parameter is the mapping of its value; or (30% of these) tells an LFO the audio thread already owns to take its offset from a tweener created just before the command: it may lag by a callback but follows in the end; the others: each case = seeded history over {add LFO (4 waveforms, frequency 0 .. 3 cycles per internal chunk, amplitude / offset / starting phase), add tweener, add probe modulator, add a follower (an LFO of amplitude 0 whose offset is linked through a mapping to an older modulator: a modulator -> modulator chain), add a reader (sub-track whose probe effect owns parameters linked to modulators through mappings with normal / inverted / partial input ranges and every easing; 30% of the readers start with fixed parameters and are linked afterwards by Parameter::set with a tween - once it is over they follow like any other link), tweener set (immediate / delayed, any duration and easing; targets and initial values from a small pool so that sets to the current value and to the pending target occur), LFO frequency / amplitude / offset / phase / waveform commands, drop a modulator, callback of arbitrary size} at seeded internal buffer size and sample rate; non-trivial = at least one (modulator value, linked parameter) pair compared; distinct = hash of per-callback (live modulators, readers, chunks)",
 			assumptions: vec![
 				"LFO parameters change by instant commands (their own tweens are C06's subject); waveform shapes follow the formulas pinned by the repository's unit tests".into(),
 				"tolerance 1e-9 relative; easings with power < 1 get an extra 1e-4 of the output range (infinite slope at 0)".into(),
